@@ -40,11 +40,16 @@ def run_worker(mods, cid, mode, timeout_ms, only=None, wall=3600):
     return out
 
 
-def run_native(args, wall=3600):
+def run_native(args, wall=None):
+    if wall is None:
+        wall = 240 if (len(args) > 2 and args[2] == "quick") or args[0] == "replay" else 3000
     env = dict(os.environ)
     env["PYTHONPATH"] = os.environ.get("VERIF_REPO", "/repo") + ":" + VERIF
-    p = subprocess.run([NATIVE_PY, "-u", "-m", "native.run"] + args, capture_output=True, text=True, cwd=VERIF,
-                       env=env, timeout=wall)
+    try:
+        p = subprocess.run([NATIVE_PY, "-u", "-m", "native.run"] + args, capture_output=True, text=True, cwd=VERIF,
+                           env=env, timeout=wall)
+    except subprocess.TimeoutExpired:
+        return {"hang": "native run exceeded %ds (a response or request loop did not terminate)" % wall}
     if p.returncode != 0:
         return {"crash": "native runner failed", "stderr": p.stderr[-3000:]}
     try:
@@ -251,7 +256,9 @@ def conclude(a, cfg, tier, seed, results, native, t0):
     # ---- native bounded stand-in
     nat_fail = []
     if native is not None:
-        if native.get("crash"):
+        if native.get("hang"):
+            nat_fail.append({"inputs": {"note": native["hang"]}, "violated": [native["hang"]], "replay_fn": "replay"})
+        elif native.get("crash"):
             faults.append("native stand-in: %s %s" % (native["crash"], native.get("stderr", "")[-800:]))
         else:
             for f in native.get("failures", []):
